@@ -46,6 +46,46 @@ fn run_one(cmd: &str, input: &[u8]) -> String {
         Err(e) => format!("ERR {}", e),
       }
     }
+    "wal_append" => {
+      // input: sequence of ops  [t:1][len:2 LE][payload]  -> hex of the log bytes written through Wal::append_*
+      let root = PathBuf::from("/mem");
+      let st: Arc<dyn Storage> = Arc::new(InMemoryStorage::new(root.clone()));
+      let p = root.join("wal.log");
+      let mut wal = searchlite_core::wal::Wal::open(st.clone(), &p).unwrap();
+      let mut i = 0;
+      while i + 3 <= input.len() {
+        let t = input[i];
+        let n = input[i + 1] as usize | ((input[i + 2] as usize) << 8);
+        let pl = &input[i + 3..i + 3 + n];
+        i += 3 + n;
+        match t {
+          1 => {
+            let d: searchlite_core::api::types::Document = serde_json::from_slice(pl).unwrap();
+            wal.append_add_doc(&d).unwrap()
+          }
+          2 => wal.append_commit().unwrap(),
+          3 => wal.append_delete_doc_id(std::str::from_utf8(pl).unwrap()).unwrap(),
+          _ => {}
+        }
+      }
+      drop(wal);
+      let bytes = st.read_to_end(&p).unwrap();
+      format!("OK {}", bytes.iter().map(|b| format!("{:02x}", b)).collect::<String>())
+    }
+    "wal_pending" => {
+      let root = PathBuf::from("/mem");
+      let st: Arc<dyn Storage> = Arc::new(InMemoryStorage::new(root.clone()));
+      let p = root.join("wal.log");
+      st.write_all(&p, input).unwrap();
+      match searchlite_core::wal::Wal::last_pending_ops(st.as_ref(), &p) {
+        Ok(es) => format!("OK {}", es.iter().map(|e| match e {
+          searchlite_core::wal::WalEntry::AddDoc(d) => format!("Add({})", serde_json::to_string(d).unwrap_or_default()),
+          searchlite_core::wal::WalEntry::DeleteDocId(s) => format!("Del({:?})", s),
+          searchlite_core::wal::WalEntry::Commit => "Commit".to_string(),
+        }).collect::<Vec<_>>().join(" ")),
+        Err(e) => format!("ERR {}", e),
+      }
+    }
     _ => "ERR unknown command".to_string(),
   }
 }
